@@ -75,7 +75,7 @@ def Storage_RemoveFromList : List String := ["lockKey", "getList", "getCategory"
 def Storage_Set : List String := ["lockKey", "setLocked"]
 def Storage_SetExpiration : List String := ["lockKey", "cacheTierFor", "cache.Get", "cache.Set"]
 def Storage_SetHash : List String := ["cacheTierFor().Set", "cacheTierFor"]
-def Storage_SetNX : List String := ["lockKey", "cacheTierFor", "cache.Exists", "cache.Set"]
+def Storage_SetNX : List String := ["cacheTierFor", "nxSetter.SetNX", "cache.Exists", "cache.Set"]
 def Storage_SetPersistent : List String := ["lockKey", "setPersistent"]
 def Storage_SetRuntime : List String := ["lockKey", "setRuntime"]
 def Storage_get : List String := ["getCategory", "getCacheForKey", "cache.Get", "getSharedPersistent", "cache.Get", "lockKey", "persistent.Get", "cache.Set"]
